@@ -49,8 +49,8 @@ Act2(o) == CASE o.op = "insert" -> M2!Insert(o.a, o.b) [] o.op = "delete" -> M2!
              [] o.op = "stim" -> M2!Stimulate(o.b) [] o.op = "clamp" -> M2!Clamp(o.a, o.b)
              [] o.op = "delrec" -> M2!DeleteRecordings(o.b) [] o.op = "deltrain" -> M2!DeleteTrainables(o.b)
              [] o.op = "delstim" -> M2!DeleteStimuli(o.b)
-\* View.delete_trainables is subject to known findings F18/F19: histories that would run into them are not explored
-Avoid(o) == o.op = "deltrain" /\ o.b # "all"
+\* (View.delete_trainables used to be subject to the defects F18/F19 and was kept out of the histories; it is repaired now)
+Avoid(o) == FALSE
 Pre(o) == /\ phase = "pre" /\ Len(hist) < MaxPre /\ ~Avoid(o)
           /\ Act1(o) /\ Act2(o)
           /\ hist' = Append(hist, [side |-> 0, o |-> o]) /\ UNCHANGED phase
